@@ -82,6 +82,11 @@ def verdict(kind, text):
 
 
 # ------------------------------------------------------------------ implementation side of the J.* ops
+# intermediate representations (texts) and probes of the reader / validator MODELS on inputs outside the property: a
+# difference there breaks the correspondence; the independent oracle has to exhibit a failing input
+CORRESPONDENCE_ONLY_OPS = ('J.text', 'J.loads', 'J.validlog', 'J.validsetting', 'J.readtext', 'J.sreadtext', 'J.stext', 'J.prefix')
+
+
 def impl_exec(ops):
     logs, settings, out = [], [], []
     for line in ops:
